@@ -2,7 +2,6 @@ package dbcheck
 
 import (
 	"bytes"
-	"fmt"
 	"math/rand/v2"
 	"runtime"
 	"strings"
